@@ -182,11 +182,72 @@ def check_hist(case):
     return dis
 
 
+_GLX = [0.0, 0.5384693101056831, -0.5384693101056831, 0.906179845938664, -0.906179845938664]
+_GLW = [0.5688888888888889, 0.47862867049936647, 0.47862867049936647, 0.23692688505618908, 0.23692688505618908]
+
+
+def _quad(f, a, b, n):
+    h = (b - a) / n
+    s = 0.0
+    for i in range(n):
+        m = a + (i + 0.5) * h
+        for x, w in zip(_GLX, _GLW):
+            s += w * f(m + x * h / 2.0)
+    return s * h / 2.0
+
+
+def reference_length(obj):
+    """The definition  length = integral of |P'(t)| dt  evaluated from the specification's exact data by composite
+    5-point Gauss-Legendre quadrature at two resolutions (tagged comparator, like on_param).  Returns (value, own
+    error estimate) or None where the speed vanishes inside the curve (cusps: the collinear family decides those)."""
+    if obj[0] == "A":
+        u, v = c02.fpt(obj[2]), c02.fpt(obj[3])
+        f, signed = c02.arc_fn(obj)
+        th0 = c02.ang(obj[4])
+
+        def speed(th):
+            return math.hypot(-u[0] * math.sin(th) + v[0] * math.cos(th), -u[1] * math.sin(th) + v[1] * math.cos(th))
+        lo, hi = th0, th0 + signed
+    else:
+        P = [c02.fpt(p) for p in obj[1:]]
+        n = len(P) - 1
+        D = [(n * (P[i + 1][0] - P[i][0]), n * (P[i + 1][1] - P[i][1])) for i in range(n)]
+
+        def speed(t):
+            q = D
+            while len(q) > 1:
+                q = [((1 - t) * a[0] + t * b[0], (1 - t) * a[1] + t * b[1]) for a, b in zip(q, q[1:])]
+            return math.hypot(*q[0])
+        lo, hi = 0.0, 1.0
+    samples = [speed(lo + (hi - lo) * i / 64.0) for i in range(65)]
+    if max(samples) == 0 or min(samples) < 1e-3 * max(samples):
+        return None
+    a, b = abs(_quad(speed, lo, hi, 256)), abs(_quad(speed, lo, hi, 512))
+    return b, abs(a - b)
+
+
 def check_law(case):
-    """invariance laws on an arbitrary segment of MC_C02's table"""
+    """invariance laws on an arbitrary segment of MC_C02's table, and accuracy against the defining integral"""
     obj = case["obj"]
     x = c02.build(obj)
     dis = []
+    ref = reference_length(obj)
+    if ref is not None and ref[1] <= 1e-11 * max(1.0, ref[0]):
+        for e in (1e-4, 1e-6, 1e-9):
+            try:
+                Le = x.length(error=e)
+            except engine.CaseTimeout:
+                raise
+            except Exception as ex:
+                dis.append({"clause": "Raises", "detail": "length(error=%g) of %s raised %s" % (e, obj, type(ex).__name__)})
+                continue
+            err = abs(Le - ref[0])
+            if err > e + 1e-11 * max(1.0, ref[0]):
+                circular = obj[0] == "A" and abs(math.hypot(*c02.fpt(obj[2])) - math.hypot(*c02.fpt(obj[3]))) < 1e-12
+                dis.append({"clause": "Accuracy", "kind": obj[0], "circular_arc": circular, "requested_error": e, "error": err,
+                            # the error of a chord-sum that stops refining each piece at `e` grows like L (e/L)^(2/3)
+                            "error_over_L_e23": (err / ref[0]) / ((e / ref[0]) ** (2.0 / 3.0)),
+                            "detail": "length(error=%g) of %s = %r, the integral of the speed is %r (off by %.3g)" % (e, obj, Le, ref[0], err)})
     e = 1e-7
     try:
         L = x.length(error=e)
